@@ -5,6 +5,7 @@
 -/
 import NngModel.Proofs.LifeStep
 import NngModel.Proofs.LifeGlobalStep
+import NngModel.Generated.C14
 namespace Nng.C14
 open Nng.Life Nng.LifeModel Nng.Generated
 
